@@ -1,6 +1,6 @@
 package main
 
-// verif:needs c01 c10
+// verif:needs c01 c10 c02
 
 // C14: the eight board symmetries commute with the rules.
 // CASE <enc p> ; <move> | for each entry of Symmetries(p): <sym index>:<abs image>:<transformed move>:<class + abs result>
@@ -47,6 +47,15 @@ func emitC14(c *ctx, p *tak.Position, m tak.Move) {
 		return
 	}
 	n := p.Size()
+	// the list is used AFTER unrelated calls for another board size (a list must not depend on what was asked since)
+	if other := c14Other[(n+c.r.Intn(5)+1-3)%6]; other != nil && other.Size() != n {
+		safely(func() { symmetry.Symmetries(other) })
+		if c.r.Intn(3) == 0 {
+			safely(func() {
+				symmetry.Canonical(other.Size(), []tak.Move{{X: 0, Y: 0, Type: tak.PlaceFlat}, {X: 1, Y: 1, Type: tak.PlaceFlat}})
+			})
+		}
+	}
 	a := absOf(p)
 	origRes, origNext := moveResult(p, m)
 	var parts []string
@@ -113,6 +122,42 @@ func emitC14(c *ctx, p *tak.Position, m tak.Move) {
 	c.printf("CASE %s ; %s | %s @ %s\n", enc(p), encMove(m), strings.Join(parts, " # "), origRes)
 }
 
+// defaultize rebuilds a constructed board under the DEFAULT configuration of its size (the model of Symmetries
+// rebuilds images with the default piece counts); nil if the board uses more pieces than the defaults provide.
+func defaultize(p *tak.Position) *tak.Position {
+	size := p.Size()
+	pieces := []int{0, 0, 0, 10, 15, 21, 30, 40, 50}[size]
+	caps := []int{0, 0, 0, 0, 0, 1, 1, 2, 2}[size]
+	var st, cp [2]int
+	b := boardOf(p)
+	for _, row := range b {
+		for _, sq := range row {
+			for _, pc := range sq {
+				i := 0
+				if pc.Color() == tak.Black {
+					i = 1
+				}
+				if pc.Kind() == tak.Capstone {
+					cp[i]++
+				} else {
+					st[i]++
+				}
+			}
+		}
+	}
+	if st[0] > pieces || st[1] > pieces || cp[0] > caps || cp[1] > caps {
+		return nil
+	}
+	q, err := tak.FromSquares(tak.Config{Size: size}, b, p.MoveNumber())
+	if err != nil {
+		return nil
+	}
+	return q
+}
+
+// one position per size 3..8, used for the unrelated calls
+var c14Other [6]*tak.Position
+
 func c14Moves(c *ctx, p *tak.Position, k int) []tak.Move {
 	r := c.r
 	var out []tak.Move
@@ -133,6 +178,10 @@ func c14Moves(c *ctx, p *tak.Position, k int) []tak.Move {
 }
 
 func runC14(c *ctx) {
+	for s := 3; s <= 8; s++ {
+		ps, _ := randomGame(c.r, tak.Config{Size: s}, 6, -1, false)
+		c14Other[s-3] = ps[len(ps)-1]
+	}
 	if c.tier == "replay" {
 		parts := strings.Split(readReplay(c).Input, ";")
 		if p, err := decodeEnc(parts[0]); err == nil && len(parts) > 1 {
@@ -160,6 +209,25 @@ func runC14(c *ctx) {
 					emitC14(c, p, m)
 				}
 			}
+		}
+	}
+	// winding roads and boards with many groups: the game-over verdict must not depend on the orientation
+	for b := 0; b < 40*c.scale; b++ {
+		size := 3 + b%6
+		var p *tak.Position
+		switch b % 3 {
+		case 0:
+			p = snakeBoard(r, size)
+		case 1:
+			p = roadBoard(r, size)
+		default:
+			p = manyGroups(r, 6+b%3)
+		}
+		if p = defaultize(p); p == nil {
+			continue
+		}
+		for _, m := range c14Moves(c, p, 1) {
+			emitC14(c, p, m)
 		}
 	}
 	for b := 0; b < 40*c.scale; b++ {
